@@ -8,6 +8,9 @@ for f in glob.glob(os.path.join(src, '*')):
     b = os.path.basename(f)
     if os.path.isfile(f) and (b == 'patch.diff' or b == 'demo.sh' or b == 'README.md' or b.endswith('_test.go') or b.endswith('.go')) and not b.startswith('foreign'):
         shutil.copy(f, os.path.join(dst, b))
+for f in glob.glob(os.path.join(src, '*')):
+    if os.path.isdir(f):  # a demonstration program kept in its own directory
+        shutil.copytree(f, os.path.join(dst, os.path.basename(f)), dirs_exist_ok=True)
 meta = {"id": sid, "breaks_property": prop, "needs_to_manifest": needs, "caught_by": caught, "what_was_run": ran,
         
         "source": "written by a fresh sub-agent that was given only the property text and a scratch git worktree of /repo"}
